@@ -122,15 +122,18 @@ theorem denoteWrapSeq_closed (lab app trn : Option Actor) (S : Scope) (xa xt xl 
     · cases app <;> rfl
     · cases trn <;> rfl
 
-theorem spec_wrap {scope : GraphM Trunk} {S : Scope} (hs : Spec scope S) (lab app trn : Option Actor) :
-    Spec (composeWrap lab app trn scope) (denoteWrap lab app trn S) := by
+theorem spec_wrap {full : Prop} {scope : GraphM Trunk} {S : Scope} (hs : Spec full scope S) (lab app trn : Option Actor) :
+    Spec full (composeWrap lab app trn scope) (denoteWrap lab app trn S) := by
   rw [denoteWrap_eq, composeWrap_eq]
-  intro g W xa xt xl r hi hr
-  obtain ⟨left, gL, WL, hrun1, h1⟩ := hs g W xa xt xl r hi hr
+  intro g W xa xt xl r hi hw hr
+  obtain ⟨left, gL, WL, hrun1, h1⟩ := hs g W xa xt xl r hi hw hr
+  have hgg := h1.frame.next_le
+  obtain ⟨R, hR⟩ : ∃ R, R = r + (gL.next - g.next) := ⟨_, rfl⟩
+  have hRle : R ≤ gL.next := by omega
   have hbL := h1.inv.bounded
   have hltL : ∀ n, WL.live n → n < gL.next ∧ WL.h n < gL.next := h1.inv.liveLt
   -- phase A: the three builds
-  obtain ⟨wl?, gA, hrA, hbA, hfA, hgeA, hleA, hsA, hGA, htA⟩ :=
+  obtain ⟨wl?, gA, hrA, hbA, hfA, hgeA, hleA, hsA, hGA, htA, hinA, hwrA⟩ :=
     buildOpt_spec hbL (Frame.refl gL) left.train.publisher left.label.publisher (fun _ => left.label.publisher) [] lab
       (by intro e he; cases he) (by intros; rfl)
   have hG1eq : buildGroupsOpt [] lab gL.next = lab.toList.map (fun l => (l.tag, ⟨gL.next, gL.next + 1, l, 1, 1⟩)) := by
@@ -167,11 +170,11 @@ theorem spec_wrap {scope : GraphM Trunk} {S : Scope} (hs : Spec scope S) (lab ap
       simp only [Option.toList, List.map_cons, List.map_nil, List.mem_singleton] at he
       subst he
       simp [lpOfFn]
-  obtain ⟨wa?, gB, hrB, hbB, hfB, hgeB, hleB, hsB, hGB, htB⟩ :=
+  obtain ⟨wa?, gB, hrB, hbB, hfB, hgeB, hleB, hsB, hGB, htB, hinB, hwrB⟩ :=
     buildOpt_spec hbA hfA left.train.publisher (labelPubOf wl? left.label.publisher) _ _ app hGA'
       (fun a _ h => hlp1 a.tag h)
   have hfLB : Frame gL gB := hfA.trans hfB
-  obtain ⟨wt?, gC, hrC, hbC, hfC, hgeC, hleC, hsC, hGC, htC⟩ :=
+  obtain ⟨wt?, gC, hrC, hbC, hfC, hgeC, hleC, hsC, hGC, htC, hinC, hwrC⟩ :=
     buildOpt_spec hbB hfLB left.train.publisher (labelPubOf wl? left.label.publisher) _ _ trn hGB
       (fun a _ h => hlp1 a.tag (lookup_buildGroupsOpt_none h))
   have hfLC : Frame gL gC := hfLB.trans hfC
@@ -186,17 +189,17 @@ theorem spec_wrap {scope : GraphM Trunk} {S : Scope} (hs : Spec scope S) (lab ap
       gC.kindOf w.uid = some (.worker w.gid w.actor 1 1) := by
     intro w hw
     obtain ⟨a, _, b, lo, hi', _⟩ := hsAp.of_some hw
-    exact ⟨lo, hi', b.free, b.kind⟩
+    exact ⟨lo, hi', b.free 0, b.kind⟩
   have ft : ∀ w, wt? = some w → gB.next ≤ w.uid ∧ w.uid < gC.next ∧ gC.inputOf w.uid 0 = none ∧
       gC.kindOf w.uid = some (.worker w.gid w.actor 1 1) := by
     intro w hw
     obtain ⟨a, _, b, lo, hi', _⟩ := hsC.of_some hw
-    exact ⟨lo, hi', b.free, b.kind⟩
+    exact ⟨lo, hi', b.free 0, b.kind⟩
   have fl : ∀ w, wl? = some w → gL.next ≤ w.uid ∧ w.uid < gA.next ∧ gC.inputOf w.uid 0 = none ∧
       gC.kindOf w.uid = some (.worker w.gid w.actor 1 1) := by
     intro w hw
     obtain ⟨a, _, b, lo, hi', _⟩ := hsL.of_some hw
-    exact ⟨lo, hi', b.free, b.kind⟩
+    exact ⟨lo, hi', b.free 0, b.kind⟩
   -- uids of different slots differ
   have nat : ∀ w w', wa? = some w → wt? = some w' → w.uid ≠ w'.uid := fun w w' h h' => by
     have := (fa w h).2.1; have := (ft w' h').1; omega
@@ -245,6 +248,14 @@ theorem spec_wrap {scope : GraphM Trunk} {S : Scope} (hs : Spec scope S) (lab ap
   have t6 : ∀ u, g6.trainerOf u = gC.trainerOf u := by intro u; rw [hg6, hg5, hg4]; simp
   have n6 : g6.next = gC.next := by rw [hg6, hg5, hg4]; simp
   have tr6 : g6.trains = gC.trains := by rw [hg6, hg5, hg4]; simp
+  have fr4 : ∀ w, wt? = some w → g4.inputOf w.uid 0 = none := by
+    intro w hw
+    rw [in4, (ft w hw).2.2.1, hit_a _ _ (fun w' h' => nat w' w h' hw)]
+    rfl
+  have fr5 : ∀ w, wl? = some w → g5.inputOf w.uid 0 = none := by
+    intro w hw
+    rw [in5, in4, (fl w hw).2.2.1, hit_a _ _ (fun w' h' => nal w' w h' hw), hit_t _ _ (fun w' h' => ntl w' w h' hw)]
+    rfl
   have hrunB : Run (left.extend (wa?.map (fun w => Segment.ofNode w.uid)) (wt?.map (fun w => Segment.ofNode w.uid))
       (wl?.map (fun w => Segment.ofNode w.uid))) gC
       ⟨⟨left.apply.head, (wa?.map (·.uid)).getD left.apply.tail⟩, ⟨left.train.head, (wt?.map (·.uid)).getD left.train.tail⟩,
@@ -287,6 +298,60 @@ theorem spec_wrap {scope : GraphM Trunk} {S : Scope} (hs : Spec scope S) (lab ap
     rw [hg6, hg5, hg4]
     exact ((hfLC.pushEdgeOpt wa? _ (fun w hw => by have := (fa w hw).1; omega)).pushEdgeOpt wt? _
       (fun w hw => by have := (ft w hw).1; omega)).pushEdgeOpt wl? _ (fun w hw => (fl w hw).1)
+  have hltT : ∀ n, WL.live n → n < gC.next := fun n hn => by have := (hltL n hn).1; omega
+  have hw6 : Wired g6 := by
+    have hwC : Wired gC := hwrC (hwrB (hwrA h1.wired))
+    have hw4 : Wired g4 := by
+      rw [hg4]; exact hwC.pushEdgeOpt wa? _ (hltT _ h1.ta.1) (fun w hw => (fa w hw).2.2.1)
+    have hw5 : Wired g5 := by
+      rw [hg5]
+      refine hw4.pushEdgeOpt wt? _ ?_ fr4
+      rw [hg4, pushEdgeOpt_next]; exact hltT _ h1.tt.1
+    rw [hg6]
+    refine hw5.pushEdgeOpt wl? _ ?_ fr5
+    rw [hg5, hg4, pushEdgeOpt_next, pushEdgeOpt_next]; exact hltT _ h1.tl.1
+  -- every subscription of a node created by this operator
+  have cls6 : ∀ n k q, gL.next ≤ n → g6.inputOf n k = some q →
+      (∃ w, wa? = some w ∧ n = w.uid ∧ q = left.apply.publisher) ∨
+      (∃ w, wt? = some w ∧ n = w.uid ∧ q = left.train.publisher) ∨
+      (∃ w, wl? = some w ∧ n = w.uid ∧ q = left.label.publisher) := by
+    intro n k q hn hq
+    have e0 : gC.inputOf n k = none := by rw [hinC, hinB, hinA]; exact hbL.inputOf_none hn k
+    rw [in6, in5, in4, e0] at hq
+    rcases or_some hq with hq | hq
+    · rcases or_some hq with hq | hq
+      · rcases or_some hq with hq | hq
+        · cases hq
+        · obtain ⟨w, h1', h2', h3'⟩ := edgeHit_some hq
+          exact Or.inl ⟨w, h1', h2'.symm, h3'⟩
+      · obtain ⟨w, h1', h2', h3'⟩ := edgeHit_some hq
+        exact Or.inr (Or.inl ⟨w, h1', h2'.symm, h3'⟩)
+    · obtain ⟨w, h1', h2', h3'⟩ := edgeHit_some hq
+      exact Or.inr (Or.inr ⟨w, h1', h2'.symm, h3'⟩)
+  have mono6 : ∀ s k q, gL.inputOf s k = some q → g6.inputOf s k = some q := hf6.input_mono hbL
+  have reA : full → Reach g6 left.apply.head left.apply.tail := fun hfull => (h1.regTail hfull).mono mono6
+  have noT : full → ¬ Reach g6 left.apply.head left.train.tail := fun hfull hre =>
+    (h1.sep hfull).1 (Reach.old hf6 h1.wired (hltL _ h1.tt.1).1 hre)
+  have noL : full → ¬ Reach g6 left.apply.head left.label.tail := fun hfull hre =>
+    (h1.sep hfull).2 (Reach.old hf6 h1.wired (hltL _ h1.tl.1).1 hre)
+  have noWT : full → ∀ w, wt? = some w → ¬ Reach g6 left.apply.head w.uid := by
+    intro hfull w hw hre
+    have hne : w.uid ≠ left.apply.head := by have := (hltL _ h1.ha.live).1; have := (ft w hw).1; omega
+    rcases hre.inv with e | ⟨k0, q0, hq0, hr0⟩
+    · exact hne e
+    · rcases cls6 _ k0 q0 (by have := (ft w hw).1; omega) hq0 with ⟨w', hw', e, _⟩ | ⟨_, _, _, e⟩ | ⟨w', hw', e, _⟩
+      · exact nat w' w hw' hw e.symm
+      · rw [e] at hr0; exact noT hfull hr0
+      · exact ntl w w' hw hw' e
+  have noWL : full → ∀ w, wl? = some w → ¬ Reach g6 left.apply.head w.uid := by
+    intro hfull w hw hre
+    have hne : w.uid ≠ left.apply.head := by have := (hltL _ h1.ha.live).1; have := (fl w hw).1; omega
+    rcases hre.inv with e | ⟨k0, q0, hq0, hr0⟩
+    · exact hne e
+    · rcases cls6 _ k0 q0 (fl w hw).1 hq0 with ⟨w', hw', e, _⟩ | ⟨w', hw', e, _⟩ | ⟨_, _, _, e⟩
+      · exact nal w' w hw' hw e.symm
+      · exact ntl w' w hw' hw e.symm
+      · rw [e] at hr0; exact noL hfull hr0
   -- the values
   rw [denoteWrapSeq_closed lab app trn S xa xt xl gL.next gA.next gB.next left.train.publisher left.label.publisher
     (labelPubOf wl? left.label.publisher)]
@@ -301,12 +366,12 @@ theorem spec_wrap {scope : GraphM Trunk} {S : Scope} (hs : Spec scope S) (lab ap
   have vlt : WL.σ left.train.publisher = s.train := h1.tt.2
   have vll : WL.σ left.label.publisher = s.label := h1.tl.2
   have vla : WL.σ left.apply.publisher = s.apply := h1.ta.2
-  have rlt : ∀ r', gL.next ≤ r' → RefOk WL left.train.publisher r' := fun r' hr' =>
-    ⟨h1.tt.1, by have := (hltL _ h1.tt.1).2; show WL.h left.train.tail < r'; omega⟩
-  have rll : ∀ r', gL.next ≤ r' → RefOk WL left.label.publisher r' := fun r' hr' =>
-    ⟨h1.tl.1, by have := (hltL _ h1.tl.1).2; show WL.h left.label.tail < r'; omega⟩
-  have rla : ∀ r', gL.next ≤ r' → RefOk WL left.apply.publisher r' := fun r' hr' =>
-    ⟨h1.ta.1, by have := (hltL _ h1.ta.1).2; show WL.h left.apply.tail < r'; omega⟩
+  have rlt : ∀ r', R ≤ r' → RefOk WL left.train.publisher r' := fun r' hr' =>
+    ⟨h1.tt.1, by have := h1.rank _ h1.tails_ge.2.1 h1.tt.1; show WL.h left.train.tail < r'; omega⟩
+  have rll : ∀ r', R ≤ r' → RefOk WL left.label.publisher r' := fun r' hr' =>
+    ⟨h1.tl.1, by have := h1.rank _ h1.tails_ge.2.2 h1.tl.1; show WL.h left.label.tail < r'; omega⟩
+  have rla : ∀ r', R ≤ r' → RefOk WL left.apply.publisher r' := fun r' hr' =>
+    ⟨h1.ta.1, by have := h1.rank _ h1.tails_ge.1 h1.ta.1; show WL.h left.apply.tail < r'; omega⟩
   -- no label operator: no label worker
   have wl_none : wl? = none → lab = none := by
     intro h
@@ -330,7 +395,7 @@ theorem spec_wrap {scope : GraphM Trunk} {S : Scope} (hs : Spec scope S) (lab ap
       obtain ⟨w, e, _⟩ := hsC.some_ a htrn
       rw [h] at e; cases e
   -- C1: the label worker
-  obtain ⟨W1, hiW1, L1a, L1b, L1c⟩ := liveSlot hi6 wl? left.label.publisher gL.next (slotState s.train lblv [] lab)
+  obtain ⟨W1, hiW1, L1a, L1b, L1c⟩ := liveSlot hi6 wl? left.label.publisher R (slotState s.train lblv [] lab)
     (fun w hw => by rw [n6]; have := fl w hw; omega) (rll _ (Nat.le_refl _))
     (by
       intro w hw
@@ -340,15 +405,15 @@ theorem spec_wrap {scope : GraphM Trunk} {S : Scope} (hs : Spec scope S) (lab ap
       have e1 : lpOf l.tag = left.label.publisher := by rw [hlpOf]; simp [lpOfFn]
       have e2 : lblv l.tag = s.label := by rw [hlblv]; simp [lblvFn]
       rw [e1] at built
-      have := slot_stateFor built t6 gL.next (rlt _ (Nat.le_refl _)) (rll _ (Nat.le_refl _)) s.train s.label vlt vll
+      have := slot_stateFor built t6 R (rlt _ (Nat.le_refl _)) (rll _ (Nat.le_refl _)) s.train s.label vlt vll
       simp only [slotState, ← hact, e2]
       exact this)
   have hnl1 : ∀ w, wl? = some w → ¬ WL.live w.uid := fun w hw => hnlW _ (fl w hw).1
-  obtain ⟨lt1, vlt1⟩ := liveSlot_keepRef L1a L1b hnl1 _ _ (rlt (gL.next + 1) (by omega))
-  obtain ⟨ll1, vll1⟩ := liveSlot_keepRef L1a L1b hnl1 _ _ (rll (gL.next + 1) (by omega))
-  obtain ⟨la1, vla1⟩ := liveSlot_keepRef L1a L1b hnl1 _ _ (rla (gL.next + 1) (by omega))
+  obtain ⟨lt1, vlt1⟩ := liveSlot_keepRef L1a L1b hnl1 _ _ (rlt (R + 1) (by omega))
+  obtain ⟨ll1, vll1⟩ := liveSlot_keepRef L1a L1b hnl1 _ _ (rll (R + 1) (by omega))
+  obtain ⟨la1, vla1⟩ := liveSlot_keepRef L1a L1b hnl1 _ _ (rla (R + 1) (by omega))
   rw [vlt] at vlt1; rw [vll] at vll1; rw [vla] at vla1
-  have lab1 : RefOk W1 labelPub (gL.next + 1) ∧ W1.σ labelPub = label' := by
+  have lab1 : RefOk W1 labelPub (R + 1) ∧ W1.σ labelPub = label' := by
     cases hwl : wl? with
     | none =>
       have hlab := wl_none hwl
@@ -364,7 +429,7 @@ theorem spec_wrap {scope : GraphM Trunk} {S : Scope} (hs : Spec scope S) (lab ap
       rw [c2, vll, hlabel', hlab, hact]
       have e2 : lblv l.tag = s.label := by rw [hlblv, hlab]; simp [lblvFn]
       simp [labelVal, slotState, buildActor, applied, hlab, e2]
-  have lp1 : ∀ τ, RefOk W1 (lpOf τ) (gL.next + 1) ∧ W1.σ (lpOf τ) = lblv τ := by
+  have lp1 : ∀ τ, RefOk W1 (lpOf τ) (R + 1) ∧ W1.σ (lpOf τ) = lblv τ := by
     intro τ
     rw [hlpOf, hlblv]
     cases lab with
@@ -379,7 +444,7 @@ theorem spec_wrap {scope : GraphM Trunk} {S : Scope} (hs : Spec scope S) (lab ap
     rcases (L1a _).mp h with h | ⟨w', hw', e⟩
     · exact hnlW _ (by have := (fa w hw).1; omega) h
     · exact nal w w' hw hw' e
-  obtain ⟨W2, hiW2, L2a, L2b, L2c⟩ := liveSlot hiW1 wa? left.apply.publisher (gL.next + 1)
+  obtain ⟨W2, hiW2, L2a, L2b, L2c⟩ := liveSlot hiW1 wa? left.apply.publisher (R + 1)
     (slotState s.train lblv (buildGroupsOpt [] lab gL.next) app)
     (by
       intro w hw
@@ -392,12 +457,12 @@ theorem spec_wrap {scope : GraphM Trunk} {S : Scope} (hs : Spec scope S) (lab ap
       obtain ⟨a, happ, built, _, _, hact⟩ := hsAp.of_some hw
       refine ⟨by rw [k6]; exact (fa w hw).2.2.2, ina w hw, hnl2 w hw, ?_⟩
       subst happ
-      have := slot_stateFor built t6 (gL.next + 1) lt1 (lp1 a.tag).1 s.train (lblv a.tag) vlt1 (lp1 a.tag).2
+      have := slot_stateFor built t6 (R + 1) lt1 (lp1 a.tag).1 s.train (lblv a.tag) vlt1 (lp1 a.tag).2
       simp only [slotState, ← hact]
       exact this)
   obtain ⟨lt2, vlt2⟩ := liveSlot_keepRef L2a L2b hnl2 _ _ lt1
   rw [vlt1] at vlt2
-  have lp2 : ∀ τ, RefOk W2 (lpOf τ) (gL.next + 1) ∧ W2.σ (lpOf τ) = lblv τ := by
+  have lp2 : ∀ τ, RefOk W2 (lpOf τ) (R + 1) ∧ W2.σ (lpOf τ) = lblv τ := by
     intro τ
     obtain ⟨c1, c2⟩ := liveSlot_keepRef L2a L2b hnl2 _ _ (lp1 τ).1
     exact ⟨c1, by rw [c2]; exact (lp1 τ).2⟩
@@ -409,7 +474,7 @@ theorem spec_wrap {scope : GraphM Trunk} {S : Scope} (hs : Spec scope S) (lab ap
       · exact hnlW _ (by have := (ft w hw).1; omega) h
       · exact ntl w w' hw hw' e
     · exact nat w' w hw' hw e.symm
-  obtain ⟨W3, hiW3, L3a, L3b, L3c⟩ := liveSlot hiW2 wt? left.train.publisher (gL.next + 1)
+  obtain ⟨W3, hiW3, L3a, L3b, L3c⟩ := liveSlot hiW2 wt? left.train.publisher (R + 1)
     (slotState s.train lblv (buildGroupsOpt (buildGroupsOpt [] lab gL.next) app gA.next) trn)
     (by
       intro w hw
@@ -422,7 +487,7 @@ theorem spec_wrap {scope : GraphM Trunk} {S : Scope} (hs : Spec scope S) (lab ap
       obtain ⟨a, htrn, built, _, _, hact⟩ := hsC.of_some hw
       refine ⟨by rw [k6]; exact (ft w hw).2.2.2, int w hw, hnl3 w hw, ?_⟩
       subst htrn
-      have := slot_stateFor built t6 (gL.next + 1) lt2 (lp2 a.tag).1 s.train (lblv a.tag) vlt2 (lp2 a.tag).2
+      have := slot_stateFor built t6 (R + 1) lt2 (lp2 a.tag).1 s.train (lblv a.tag) vlt2 (lp2 a.tag).2
       simp only [slotState, ← hact]
       exact this)
   -- what is live in the end
@@ -465,7 +530,7 @@ theorem spec_wrap {scope : GraphM Trunk} {S : Scope} (hs : Spec scope S) (lab ap
   have vll3 : W3.σ left.label.publisher = s.label := by rw [(old3 _ h1.tl.1).2]; exact vll
   refine ⟨_, g6, W3, hrun, h1.step hiW3 hf6 hag ?_
     ⟨⟨left.apply.head, (wa?.map (·.uid)).getD left.apply.tail⟩, ⟨left.train.head, (wt?.map (·.uid)).getD left.train.tail⟩,
-      ⟨left.label.head, (wl?.map (·.uid)).getD left.label.tail⟩⟩ rfl rfl rfl _ ?_ ?_ ?_ ?_ ?_⟩
+      ⟨left.label.head, (wl?.map (·.uid)).getD left.label.tail⟩⟩ rfl rfl rfl _ ?_ ?_ ?_ ?_ ?_ ?_⟩
   · intro n hn hl ho
     have hw : ∀ w : WRef, gC.kindOf w.uid = some (.worker w.gid w.actor 1 1) → n = w.uid → False := by
       intro w hk e
@@ -570,5 +635,73 @@ theorem spec_wrap {scope : GraphM Trunk} {S : Scope} (hs : Spec scope S) (lab ap
       exact hw w b.gid_ge b.kind e
     · obtain ⟨_, _, b, _⟩ := hsC.of_some hw'
       exact hw w b.gid_ge b.kind e
+
+  · -- structure: wiring, ranks, apply region
+    have hA : ∀ w, wa? = some w → W3.live w.uid ∧ W3.h w.uid = R + 1 := by
+      intro w hw
+      have hl2 : W2.live w.uid := (L2a _).mpr (Or.inr ⟨w, hw, rfl⟩)
+      obtain ⟨b1, b2, _⟩ := liveSlot_keep L3a L3b hnl3 ⟨w.uid, 0⟩ hl2
+      exact ⟨b1, by rw [b2]; exact (L2c w hw).1⟩
+    have hT : ∀ w, wt? = some w → W3.live w.uid ∧ W3.h w.uid = R + 1 := fun w hw =>
+      ⟨(L3a _).mpr (Or.inr ⟨w, hw, rfl⟩), (L3c w hw).1⟩
+    have hLb : ∀ w, wl? = some w → W3.live w.uid ∧ W3.h w.uid = R := by
+      intro w hw
+      have hl1 : W1.live w.uid := (L1a _).mpr (Or.inr ⟨w, hw, rfl⟩)
+      obtain ⟨a1, a2, _⟩ := liveSlot_keep L2a L2b hnl2 ⟨w.uid, 0⟩ hl1
+      obtain ⟨b1, b2, _⟩ := liveSlot_keep L3a L3b hnl3 ⟨w.uid, 0⟩ a1
+      exact ⟨b1, by rw [b2, a2]; exact (L1c w hw).1⟩
+    refine ⟨hw6, ⟨?_, ?_, ?_⟩, ?_, ?_, ?_, fun hfull => ⟨?_, ?_⟩, ?_⟩
+    · cases hwa : wa? with
+      | none => exact h1.tails_ge.1
+      | some w => have := (fa w hwa).1; show g.next ≤ w.uid; omega
+    · cases hwt : wt? with
+      | none => exact h1.tails_ge.2.1
+      | some w => have := (ft w hwt).1; show g.next ≤ w.uid; omega
+    · cases hwl : wl? with
+      | none => exact h1.tails_ge.2.2
+      | some w => have := (fl w hwl).1; show g.next ≤ w.uid; omega
+    · intro n hn hl
+      rw [n6]
+      rcases live3 n hl with h | ⟨w, hw', e⟩ | ⟨w, hw', e⟩ | ⟨w, hw', e⟩
+      · exact absurd h (hnlW n hn)
+      · subst e
+        rw [(hLb w hw').2, hR]
+        have := (fl w hw').2.1; omega
+      · subst e
+        obtain ⟨a, happ, _⟩ := hsAp.of_some hw'
+        have := hgeB (by rw [happ]; rfl)
+        rw [(hA w hw').2, hR]; omega
+      · subst e
+        obtain ⟨a, htrn, _⟩ := hsC.of_some hw'
+        have := hgeC (by rw [htrn]; rfl)
+        rw [(hT w hw').2, hR]; omega
+    · intro hfull n hn hre hne
+      rcases hre.inv with e | ⟨k0, q0, hq0, hr0⟩
+      · exact absurd e hne
+      · rcases cls6 n k0 q0 hn hq0 with ⟨w, hw', e, _⟩ | ⟨w, hw', e, _⟩ | ⟨w, hw', e, _⟩
+        · subst e
+          refine ⟨(hA w hw').1, ?_⟩
+          intro k q hq
+          rcases cls6 _ k q hn hq with ⟨_, _, _, e'⟩ | ⟨w', hw'', e', _⟩ | ⟨w', hw'', e', _⟩
+          · rw [e']; exact reA hfull
+          · exact absurd e' (nat w w' hw' hw'')
+          · exact absurd e' (nal w w' hw' hw'')
+        · subst e; exact absurd hre (noWT hfull w hw')
+        · subst e; exact absurd hre (noWL hfull w hw')
+    · intro hfull
+      cases hwa : wa? with
+      | none => exact reA hfull
+      | some w => exact Reach.one (reA hfull) (ina w hwa)
+    · cases hwt : wt? with
+      | none => exact noT hfull
+      | some w => exact noWT hfull w hwt
+    · cases hwl : wl? with
+      | none => exact noL hfull
+      | some w => exact noWL hfull w hwl
+    · intro _ s' k q hs' hq
+      rcases cls6 s' k q hs' hq with ⟨_, _, _, e⟩ | ⟨_, _, _, e⟩ | ⟨_, _, _, e⟩
+      · rw [e]; exact h1.tails_ge.1
+      · rw [e]; exact h1.tails_ge.2.1
+      · rw [e]; exact h1.tails_ge.2.2
 
 end ForML.Compose
